@@ -1,7 +1,9 @@
 from __future__ import annotations
 
+import ast
 import hashlib
 import logging
+import operator
 import os
 import re
 import sys
@@ -2026,6 +2028,73 @@ class FortranFile:
         return None
 
 
+_PP_BIN_OPS = {
+    ast.Add: operator.add,
+    ast.Sub: operator.sub,
+    ast.Mult: operator.mul,
+    ast.FloorDiv: operator.floordiv,
+    ast.Div: operator.floordiv,
+    ast.Mod: operator.mod,
+    ast.LShift: operator.lshift,
+    ast.RShift: operator.rshift,
+    ast.BitAnd: operator.and_,
+    ast.BitOr: operator.or_,
+    ast.BitXor: operator.xor,
+}
+_PP_CMP_OPS = {
+    ast.Eq: operator.eq,
+    ast.NotEq: operator.ne,
+    ast.Lt: operator.lt,
+    ast.LtE: operator.le,
+    ast.Gt: operator.gt,
+    ast.GtE: operator.ge,
+}
+
+
+def eval_pp_expr(expr: str):
+    """Evaluate a rewritten preprocessor condition without executing it as code.
+
+    Only integer/boolean literals, ``and``/``or``/``not``, comparisons and
+    integer arithmetic are accepted; anything else (names, calls, attribute
+    access, ...) raises ``ValueError``. Macro values come from source files and
+    must never reach ``eval``.
+    """
+
+    def ev(node):
+        if isinstance(node, ast.Expression):
+            return ev(node.body)
+        if isinstance(node, ast.Constant) and isinstance(node.value, (bool, int)):
+            return node.value
+        if isinstance(node, ast.BoolOp):
+            if isinstance(node.op, ast.And):
+                return all(ev(v) for v in node.values)
+            return any(ev(v) for v in node.values)
+        if isinstance(node, ast.UnaryOp):
+            if isinstance(node.op, ast.Not):
+                return not ev(node.operand)
+            if isinstance(node.op, ast.USub):
+                return -ev(node.operand)
+            if isinstance(node.op, ast.UAdd):
+                return +ev(node.operand)
+            if isinstance(node.op, ast.Invert):
+                return ~ev(node.operand)
+        if isinstance(node, ast.BinOp) and type(node.op) in _PP_BIN_OPS:
+            return _PP_BIN_OPS[type(node.op)](ev(node.left), ev(node.right))
+        if isinstance(node, ast.Compare):
+            left = ev(node.left)
+            for op, comparator in zip(node.ops, node.comparators):
+                right = ev(comparator)
+                if type(op) not in _PP_CMP_OPS:
+                    raise ValueError("unsupported comparison")
+                if not _PP_CMP_OPS[type(op)](left, right):
+                    return False
+                left = right
+            return True
+        raise ValueError(f"unsupported preprocessor expression: {expr!r}")
+
+    return ev(ast.parse(expr.strip(), mode="eval"))
+
+
 def preprocess_file(
     contents_split: list,
     file_path: str = None,
@@ -2079,7 +2148,7 @@ def preprocess_file(
         out_line = replace_defined(text)
         out_line = replace_vars(out_line)
         try:
-            line_res = eval(replace_ops(out_line))
+            line_res = eval_pp_expr(replace_ops(out_line))
         except:
             return False
         else:
